@@ -92,6 +92,9 @@ def gen_tree(rnd, depth, density, counter, max_depth):
             node["__args__"] = [gen_tree(rnd, depth + 1, density, counter, max_depth) for _ in range(rnd.randint(0, 3))]
     for _ in range(rnd.randint(0, 4 if depth < 3 else 2)):
         key = rnd.choice(["a", "b", "c", "key", "x1", "items", "pool", "k.dot", "k[0]", "é"])
+        if rnd.random() < 0.15:
+            # settings called like things the translator itself has names for: they are the factory's keywords all the same
+            key = rnd.choice(["factory", "func", "mapping", "kwargs", "args", "where", "structure", "absolute_name", "name", "target"])
         if not is_type and rnd.random() < 0.12:
             key = rnd.choice([1, 0, 3, True, None, 0.5])  # YAML mappings may have keys that are not strings
         if key not in node:
@@ -201,9 +204,77 @@ def run_foreign(case, result):
     return []
 
 
+def gen_pipeline(rnd):
+    """A `pipeline` list for the pipeline translator: elements are built last to first, each gets the next as its target;
+    a failing definition in or below element i is located at <where>[i]..."""
+    n = rnd.randint(1, 7)
+    fail_at = rnd.randrange(n) if rnd.random() < 0.6 else None
+    depth = rnd.choice(["element", "keyword", "argument"])
+    return {"pipeline": n, "fail_at": fail_at, "depth": depth, "fail_type": rnd.choice(["vfact.boom", "vfact.nosuch", "vfact_nosuch.thing"]),
+            "where": rnd.choice(["", "cfg", ".sites[1]"]), "tree": {"pipeline": n, "fail_at": fail_at, "depth": depth}, "fail": None, "purge": False, "share": None, "extra": None}
+
+
+def run_pipeline(case, result):
+    from cobald.daemon.core.config import PipelineTranslator
+    from cobald.daemon.config.mapping import ConfigurationError
+
+    n, fail_at = case["pipeline"], case["fail_at"]
+    elements = [{"__type__": "vfact.make", "nid": i, "label": "e%d" % i} for i in range(n)]
+    want_where = None
+    if fail_at is not None:
+        broken = {"__type__": case["fail_type"], "nid": 100}
+        if case["depth"] == "element":
+            elements[fail_at] = broken
+            want_where = "%s[%d]" % (case["where"], fail_at)
+        elif case["depth"] == "keyword":
+            elements[fail_at]["settings"] = {"inner": broken}
+            want_where = "%s[%d].settings.inner" % (case["where"], fail_at)
+        else:
+            elements[fail_at]["__args__"] = [0, [broken]]
+            want_where = "%s[%d].__args__[1][0]" % (case["where"], fail_at)
+    kwargs = {"where": case["where"]} if case["where"] else {}
+    result.count("pipelines_translated_by_the_pipeline_translator")
+    try:
+        out = PipelineTranslator().translate_hierarchy({"pipeline": elements}, **kwargs)
+    except ConfigurationError as e:
+        if fail_at is None:
+            return [("valid pipeline rejected: %r" % (e,), None)]
+        built = sorted(entry["kwargs"].get("nid") for entry in faclog.LOG)
+        problems = []
+        if e.where != want_where:
+            problems.append(("pipeline of %d elements, failing definition at %r: the error reports %r" % (n, want_where, e.where), None))
+        if built != list(range(fail_at + 1, n)):
+            problems.append(("pipeline of %d elements, element %d fails: elements %r were built, expected exactly those behind it" % (n, fail_at, built), None))
+        result.count("failing_pipeline_elements_located")
+        return problems
+    except Exception as e:  # noqa: B902
+        return [("the pipeline translator raised %r instead of a ConfigurationError" % (e,), None)]
+    if fail_at is not None:
+        return [("pipeline with a failing definition at %r was accepted" % want_where, None)]
+    order = [entry["kwargs"].get("nid") for entry in faclog.LOG]
+    problems = []
+    if order != list(range(n - 1, -1, -1)):
+        problems.append(("pipeline of %d elements was built in the order %r, expected last to first" % (n, order), None))
+    by_nid = {entry["kwargs"].get("nid"): entry for entry in faclog.LOG}
+    for i in range(n):
+        entry = by_nid.get(i)
+        if entry is None:
+            continue
+        target = entry["kwargs"].get("target")
+        if i == n - 1 and "target" in entry["kwargs"]:
+            problems.append(("the last element was given a target", None))
+        if i < n - 1 and (i + 1 not in by_nid or target is not by_nid[i + 1]["product"]):
+            problems.append(("element %d did not receive element %d as its target" % (i, i + 1), None))
+    if not isinstance(out, list) or len(out) != n or any(out[i] is not by_nid[i]["product"] for i in range(n) if i in by_nid):
+        problems.append(("the translated pipeline is %r" % (out,), None))
+    return problems[:3]
+
+
 def gen_case(rnd, spec):
     if rnd.random() < 0.05:
         return gen_equal_items(rnd)
+    if rnd.random() < 0.05:
+        return gen_pipeline(rnd)
     if rnd.random() < 0.04:
         return gen_foreign(rnd)
     counter = [0]
@@ -332,6 +403,8 @@ def execute(case, result):
     faclog.reset()
     if "foreign" in case:
         return run_foreign(case, result)
+    if "pipeline" in case:
+        return run_pipeline(case, result)
     tree, fail = case["tree"], case["fail"]
     if case.get("equal_items"):
         # only the later of two items that compare equal fails: its index, not the first equal item's, locates the error
@@ -516,7 +589,7 @@ def execute_shared(case, tree, result):
 
 
 def nontrivial(case):
-    if "foreign" in case:
+    if "foreign" in case or "pipeline" in case:
         return True
     return len(type_nodes(case["tree"])) >= 2
 
@@ -533,7 +606,7 @@ def run_shard(spec):
 
 
 def finish(total, tier):
-    needed = ["valid_trees", "definitions_naming_builtin_or_derived_types_or_one_shot_arguments", "corrected_trees_retranslated_by_the_same_translator", "failing_trees", "lists_with_equal_items_of_which_the_later_fails", "failing_trees_with_nested_second_failure", "nodes_constructed", "order_constraints_checked", "cases_with_fresh_imports",
+    needed = ["valid_trees", "pipelines_translated_by_the_pipeline_translator", "failing_pipeline_elements_located", "definitions_naming_builtin_or_derived_types_or_one_shot_arguments", "corrected_trees_retranslated_by_the_same_translator", "failing_trees", "lists_with_equal_items_of_which_the_later_fails", "failing_trees_with_nested_second_failure", "nodes_constructed", "order_constraints_checked", "cases_with_fresh_imports",
               "translations_with_extra_construct_keywords",
               "trees_with_shared_container", "shared_type_nodes_checked"]
     needed += ["failing_" + k for k in FAILURES]
